@@ -17,6 +17,9 @@ from mutants import MUTANTS  # noqa: E402
 
 
 def main():
+    if "--help" in sys.argv or "-h" in sys.argv:
+        print(__doc__)
+        return 0
     args = [a for a in sys.argv[1:] if not a.startswith("--")]
     run_tests = "--tests" in sys.argv
     want = [a.upper() for a in args]
